@@ -297,6 +297,18 @@ func Report(t TB, f Failure) bool {
 		st.mu.Unlock()
 		return false
 	}
+	if os.Getenv("VERIF_ALL") == "1" {
+		// development aid: list every distinct failure class instead of stopping at the first
+		k := f.Property + "|" + f.Check + "|" + f.Op + "|" + f.Class
+		st.mu.Lock()
+		_, seen := st.notes["all:"+k]
+		st.notes["all:"+k] = true
+		st.mu.Unlock()
+		if !seen {
+			fmt.Printf("ALL-FAIL %s :: %s\n", k, f.Msg)
+		}
+		return false
+	}
 	dir := os.Getenv("VERIF_REPLAY_DIR")
 	if dir == "" {
 		dir = filepath.Join(Root(), "replays")
